@@ -222,6 +222,10 @@ def _check_graph(case, ctx):
         for j, vid in enumerate(ed["ids"]):
             if e.vertices[j] is not by_id2[vid]:
                 return ctx.fail("edge-not-rebound-to-new-graph", "edge #%d slot %d (id %r) is still bound to a vertex object of the previous graph" % (i, j, vid))
+    # construction through the .g2o importer obeys the same rule: a file whose edge names a vertex id that has no vertex line
+    # must be rejected, and the same file without that line is accepted with the edge bound to the named vertices
+    if _check_file_with_dangling_edge(case, ctx):
+        return
     # the same graph with one edge naming an unknown id must be rejected
     if case["edges"]:
         import copy
@@ -235,6 +239,52 @@ def _check_graph(case, ctx):
         except Exception:  # noqa: BLE001
             return
         return ctx.fail("unknown-vertex-accepted", "a graph with an edge naming the unknown id %r was constructed" % unknown)
+
+
+def _check_file_with_dangling_edge(case, ctx):
+    import os
+    import tempfile
+
+    ids = [v["id"] for v in case["verts"]][:2]
+    if len(ids) < 2:
+        return False
+    a, b = ids
+    unknown = max(abs(v["id"]) for v in case["verts"]) + 23
+    variant = case["break_edge"] % 4
+    if variant == 0:
+        head = ["VERTEX_SE2 %d 0 0 0" % a, "VERTEX_SE2 %d 1 0 0.1" % b, "EDGE_SE2 %d %d 1 0 0.1 1 0 0 1 0 1" % (a, b)]
+        bad = "EDGE_SE2 %d %d 1 0 0 1 0 0 1 0 1" % (b, unknown)
+    elif variant == 1:
+        head = ["VERTEX_SE2 %d 0 0 0" % a, "VERTEX_XY %d 1 2" % b, "EDGE_SE2_XY %d %d 1 2 1 0 1" % (a, b)]
+        bad = "EDGE_SE2_XY %d %d 1 2 1 0 1" % (a, unknown)
+    elif variant == 2:
+        i6 = " ".join("1" if r == c else "0" for r in range(6) for c in range(r, 6))
+        head = ["VERTEX_SE3:QUAT %d 0 0 0 0 0 0 1" % a, "VERTEX_SE3:QUAT %d 1 0 0 0 0 0 1" % b, "EDGE_SE3:QUAT %d %d 1 0 0 0 0 0 1 %s" % (a, b, i6)]
+        bad = "EDGE_SE3:QUAT %d %d 1 0 0 0 0 0 1 %s" % (unknown, a, i6)
+    else:
+        head = ["PARAMS_SE3OFFSET 0 0 0 0 0 0 0 1", "VERTEX_SE3:QUAT %d 0 0 0 0 0 0 1" % a, "VERTEX_TRACKXYZ %d 1 2 3" % b, "EDGE_SE3_TRACKXYZ %d %d 0 1 2 3 1 0 0 1 0 1" % (a, b)]
+        bad = "EDGE_SE3_TRACKXYZ %d %d 0 1 2 3 1 0 0 1 0 1" % (a, unknown)
+    ctx.event("file-with-dangling-edge:%d" % variant)
+    fd, path = tempfile.mkstemp(prefix="vf_c18_", suffix=".g2o")
+    os.close(fd)
+    try:
+        with open(path, "w") as f:
+            f.write("\n".join(head) + "\n")
+        try:
+            g = gs.Graph.from_g2o(path)
+        except Exception as exc:  # noqa: BLE001
+            return ctx.fail("consistent-edge-rejected:file", "a consistent .g2o file was rejected: %s: %s" % (type(exc).__name__, exc)) or True
+        if len(g._edges) != 1 or [v.id for v in g._edges[0].vertices] != [a, b]:
+            return ctx.fail("edge-bound-to-wrong-vertex", "file import: %d edges, bound to %r, expected one edge over %r" % (len(g._edges), [[v.id for v in e.vertices] for e in g._edges], [a, b])) or True
+        with open(path, "w") as f:
+            f.write("\n".join(head + [bad]) + "\n")
+        try:
+            g = gs.Graph.from_g2o(path)
+        except Exception:  # noqa: BLE001
+            return False
+        return ctx.fail("unknown-vertex-accepted:file", "a .g2o file whose edge names the unknown vertex id %d was loaded without an error (%d edges kept)" % (unknown, len(g._edges))) or True
+    finally:
+        os.unlink(path)
 
 
 def _check_big(case, ctx):
